@@ -538,6 +538,11 @@ add("permutation_enforce_test_in_helper_too_strict", [(GU, "    enforce_permutat
     (GU, "def _permute_molecule(m: nx.Graph) -> nx.Graph:", "def _can_enforce(m: nx.Graph) -> bool:\n    return m.number_of_edges() > 2 and nx.density(m) != 1\n\n\ndef _permute_molecule(m: nx.Graph) -> nx.Graph:")],
     fires={"R-RETRY"})
 
+add("partition_count_asserted", (CAN, "    m_partitioned = m.copy()\n", "    assert len(partitions) == m.number_of_nodes()\n    m_partitioned = m.copy()\n"), silent=True,
+    note="an assertion that holds for every molecule: one list element per atom (size domain, tsa/sizedom.py)")
+add("canonical_graph_asserted_new", (CAN, "    return nx.relabel_nodes(m_refined, canonical_labels, copy=True)",
+    "    m_canonical = nx.relabel_nodes(m_refined, canonical_labels, copy=True)\n    assert m_canonical is not m_refined and m_canonical is not m\n    return m_canonical"), silent=True)
+
 add("v3000_endpts_search_untested", (V3, """    if endpts_match is None:
         # silently ignore everything that has no ENDPTS (e.g. use of star atoms in polymers)
         return []
